@@ -360,6 +360,46 @@ def run_xref_mixing(w, s1, s2, tag='C10:explicit-ref-unit'):
     return out
 
 
+def part_subclass(mode):
+    """(fork) a Python sub-class of Money with currencies of its own: rate
+    application yields an instance of that class in the other currency"""
+    from quantity.money import Money, ExchangeRate
+    st = Stats()
+    O.set_mode(mode)
+    Coin = type(Money)('Coin', (Money,), {})
+    btc = Coin.new_unit('BTC', 'Bitcoin', 8)
+    eth = Coin.new_unit('ETH', 'Ether', 6)
+    rate = ExchangeRate(btc, 1, eth, O.dec('D:16.482536'))
+    rv = O.fr(rate.rate)
+    for a in (F(1, 2), F(-1, 3), F(0), F(123456789, 100000000), F(10 ** 6)):
+        m = Coin(a, btc)
+        sa = O.fr(m.amount)
+        e = Coin(a, eth)
+        se = O.fr(e.amount)
+        for form, f, want, unit, q in (
+                ('m*r', lambda: m * rate, sa * rv, eth, F(1, 10 ** 6)),
+                ('r*m', lambda: rate * m, sa * rv, eth, F(1, 10 ** 6)),
+                ('m/r', lambda: e / rate, se / rv, btc, F(1, 10 ** 8))):
+            st.paths += 1
+            st.transitions += 1
+            st.evaluations += 1
+            st.state(('subclass', mode, str(a), form), nontrivial=a != 0)
+            try:
+                r, err = f(), None
+            except Exception as exc:
+                r, err = None, exc
+            exp = O.round_to(want, q, mode)
+            if err is not None or type(r) is not Coin or r.unit is not unit \
+                    or O.fr(r.amount) != exp:
+                shown = repr(r) if err is None else repr(err)
+                st.violation(f'C10:money-subclass:{form}',
+                             f"[{mode}] {form} with {a} in a sub-class of "
+                             f"Money and the rate {rate!r}: {shown}, "
+                             f"expected Coin {exp} {unit.symbol}",
+                             {'subclass': mode})
+    return st
+
+
 def part_xref(mask):
     """Money/Mass declared with an explicit reference unit symbol"""
     st = Stats()
@@ -485,6 +525,10 @@ def replay_price_mass(case):
 
 
 def replay(case):
+    if 'subclass' in case:
+        from ..hist import fork_call
+        st = fork_call(part_subclass, case['subclass'])
+        return [(sig, msg) for sig, (n, msg, cs) in st.viol.items()]
     if 'mixing' in case and 'xref' not in case:
         mask, kind, s1, s2 = case['mixing']
         w, declared = build_compound(mask, kind)
@@ -522,6 +566,8 @@ def run(tier, seed):
                                                   else 1]
     total.merge(pmap(part_compound, cparts, (crates,), fresh=True))
     total.merge(pmap(part_xref, [3, 5, 10, 15], fresh=True))
+    total.merge(pmap(part_subclass, ['ROUND_HALF_EVEN', 'ROUND_FLOOR',
+                                     'ROUND_UP'], fresh=True))
     total.sample({'money': ['EUR', '527/100', 'EUR', 'JPY', '150', 'm*r',
                             modes[1]]})
     total.sample({'compound': [5, 'mass', 'EUR/kg', '1745/100', 'EUR', 'USD',
